@@ -148,7 +148,7 @@ def run(ctx, drv):
             nobjs = rng.choice([1, 2, 3])
             ncon = rng.choice([0, 0, 1, 2, 3])
             dirs = [rng.random() < 0.4 for _ in range(nobjs)]
-            spec = tracer.Spec(kind, rng.randrange(1, 4), nobjs, ncon, dirs, rng, elements=rng.choice(["int", "str"]))
+            spec = tracer.Spec(kind, rng.randrange(1, 4), nobjs, ncon, dirs, rng, elements=rng.choice(["int", "str", "numstr"]))
             prob = tracer.TracedProblem(spec, None)
             source = ["list", "archive", "algorithm"][(t // 5) % 3]
             path = os.path.join(tmp, f"f{t}.json")
